@@ -578,6 +578,9 @@ pub struct NodeSpec {
     pub sdo: u16,
     pub slave_only: bool,
     pub path_trace: bool,
+    /// give the local clock distinctive time properties (PTP timescale, UTC offset 37 valid,
+    /// leap61, both traceable, GNSS) instead of the arbitrary-timescale default
+    pub gnss_time: bool,
     pub ports: Vec<PortSpec>,
 }
 
@@ -594,6 +597,7 @@ impl Default for NodeSpec {
             sdo: 0,
             slave_only: false,
             path_trace: false,
+            gnss_time: false,
             ports: vec![PortSpec::default()],
         }
     }
@@ -653,6 +657,17 @@ impl PortSpec {
             master_only: self.master_only,
             delay_asymmetry: Duration::from_fixed_nanos(fixed::types::I96F32::from_bits(self.asymmetry_ns_frac)),
             minor_ptp_version: if self.minor == 0 { PtpMinorVersion::Zero } else { PtpMinorVersion::One },
+        }
+    }
+}
+
+impl NodeSpec {
+    /// the time properties the instance is constructed with
+    pub fn time_properties(&self) -> TimePropertiesDS {
+        if self.gnss_time {
+            TimePropertiesDS::new_ptp_time(Some(37), statime::config::LeapIndicator::Leap61, true, true, TimeSource::Gnss)
+        } else {
+            default_time_properties()
         }
     }
 }
@@ -753,7 +768,7 @@ pub fn with_node<F: Filter, R>(
     filter_cfg: impl FnMut(usize) -> F::Config,
     f: impl FnOnce(&mut Node<'_, F>) -> R,
 ) -> R {
-    let inst = PtpInstance::<F, TrackLock>::new(spec.instance_config(), default_time_properties());
+    let inst = PtpInstance::<F, TrackLock>::new(spec.instance_config(), spec.time_properties());
     let mut node = Node::new(&inst, spec, filter_cfg);
     f(&mut node)
 }
